@@ -651,11 +651,13 @@ func ttlBoundaryProbe(seconds int32, add ttlAdd, st *oracleStats) {
 	add("C19:expired-document-kept", "boundary probe: the document never expired", detail)
 }
 
-// ttlDollarFieldProbe: a TTL index on a field whose name starts with `$`.
-// MongoDB rejects such index keys; if lungo accepts one, the pass must still
-// expire the documents of the other collections.  (Known finding: Expire
-// builds {$or: [{"$x": {$lt: …}}]}, which the matcher rejects as an unknown
-// top-level operator, so every pass fails and nothing ever expires.)
+// ttlDollarFieldProbe: an index key with a field name that starts with `$`
+// (also in an inner path segment) must be refused, as MongoDB does: Expire
+// turns the key of a TTL index into the field condition {field: {$lt: …}},
+// and a `$`-name there is read as an operator — the matcher rejects it, the
+// whole pass fails and nothing in any collection expires (the former finding
+// C19:dollar-field-ttl-index-blocks-expiry, fixed by 8b15f6d).  Whatever the
+// index calls return, the expired document of the other collection must go.
 func ttlDollarFieldProbe(add ttlAdd) {
 	detail := map[string]interface{}{"probe": "dollar-field"}
 	client, engine, err := lungo.Open(nil, lungo.Options{Store: lungo.NewMemoryStore(), ExpireInterval: time.Hour})
@@ -664,19 +666,29 @@ func ttlDollarFieldProbe(add ttlAdd) {
 	}
 	defer engine.Close()
 	ctx := context.Background()
-	if _, err := client.Database("db").Collection("bad").Indexes().CreateOne(ctx, mongo.IndexModel{Keys: bson.D{{Key: "$x", Value: int32(1)}}, Options: options.Index().SetExpireAfterSeconds(60)}); err != nil {
-		return // refused, as MongoDB does: nothing to check
+	bad := client.Database("db").Collection("bad")
+	bad.InsertOne(ctx, bson.D{{Key: "_id", Value: int32(1)}})
+	for _, key := range []string{"$x", "a.$x"} {
+		for _, ttl := range []bool{true, false} {
+			o := options.Index()
+			if ttl {
+				o.SetExpireAfterSeconds(60)
+			}
+			if _, err := bad.Indexes().CreateOne(ctx, mongo.IndexModel{Keys: bson.D{{Key: key, Value: int32(1)}}, Options: o}); err == nil {
+				add("C19:dollar-field-index-accepted", fmt.Sprintf("an index on field %q (expireAfterSeconds set: %v) was accepted; index keys with a field name starting with '$' must be refused", key, ttl), detail)
+			}
+		}
 	}
-	client.Database("db").Collection("bad").InsertOne(ctx, bson.D{{Key: "_id", Value: int32(1)}})
 	good := client.Database("db").Collection("good")
 	if _, err := good.Indexes().CreateOne(ctx, mongo.IndexModel{Keys: bson.D{{Key: "a", Value: int32(1)}}, Options: options.Index().SetExpireAfterSeconds(60)}); err != nil {
+		add("C19:create-index-failed", "creating a TTL index failed: "+err.Error(), detail)
 		return
 	}
 	good.InsertOne(ctx, bson.D{{Key: "_id", Value: int32(1)}, {Key: "a", Value: primitive.DateTime(time.Now().UnixMilli() - 3600*1000)}})
 	_, _, perr := ttlPass(engine)
 	left := len(engine.Catalog().Namespaces[lungo.Handle{"db", "good"}].Documents.List)
 	if perr != nil || left != 0 {
-		add("C19:dollar-field-ttl-index-blocks-expiry", fmt.Sprintf("a TTL index on field \"$x\" in db.bad was accepted; the pass then reports %v and the expired document of db.good stays (%d left)", perr, left), detail)
+		add("C19:dollar-field-ttl-index-blocks-expiry", fmt.Sprintf("with a `$`-field index attempted on db.bad the pass reports %v and the expired document of db.good stays (%d left)", perr, left), detail)
 	}
 }
 
@@ -727,7 +739,7 @@ func ttlBackgroundProbe(add ttlAdd) {
 }
 
 func oracleTTL(r *rng, n int, st *oracleStats) []oracleFailure {
-	st.Rule = "per evaluation one in-memory engine with 3 collections in 2 databases, each with 0-2 TTL indexes (fields a, b, s.t; expireAfterSeconds 0/60/3600/7200; ascending or descending; one in six partial) next to non-TTL, compound and unique indexes, created before or after the documents; 0-10 documents per collection whose indexed fields hold dates at least 5 s on either side of every cut-off, int64/double numbers equal to such dates, strings, null, timestamps, booleans, ObjectIDs, sub-documents, arrays (dates + others, only non-dates, empty, nested), missing fields, and for the dotted path sub-documents, arrays of sub-documents and non-documents. Transaction.Expire runs through Engine.Begin(lock)/Commit; an independent re-implementation of the rule decides which documents must be gone (exactly those, order kept, bytes unchanged), collections without TTL index byte-identical incl. index entries, index definitions kept, the oplog gains exactly one delete event per removed document (per namespace in order, nothing else), a pass that removes nothing leaves Engine.Catalog() pointer-identical (also a second pass). Once per run: boundary probes (passes back to back across the exact cut-off, expireAfterSeconds 0 and 1), the background loop with ExpireInterval 50 ms, and a TTL index on a `$`-prefixed field (known finding). Non-trivial = a TTL collection lost some and kept some documents"
+	st.Rule = "per evaluation one in-memory engine with 3 collections in 2 databases, each with 0-2 TTL indexes (fields a, b, s.t; expireAfterSeconds 0/60/3600/7200; ascending or descending; one in six partial) next to non-TTL, compound and unique indexes, created before or after the documents; 0-10 documents per collection whose indexed fields hold dates at least 5 s on either side of every cut-off, int64/double numbers equal to such dates, strings, null, timestamps, booleans, ObjectIDs, sub-documents, arrays (dates + others, only non-dates, empty, nested), missing fields, and for the dotted path sub-documents, arrays of sub-documents and non-documents. Transaction.Expire runs through Engine.Begin(lock)/Commit; an independent re-implementation of the rule decides which documents must be gone (exactly those, order kept, bytes unchanged), collections without TTL index byte-identical incl. index entries, index definitions kept, the oplog gains exactly one delete event per removed document (per namespace in order, nothing else), a pass that removes nothing leaves Engine.Catalog() pointer-identical (also a second pass). Once per run: boundary probes (passes back to back across the exact cut-off, expireAfterSeconds 0 and 1), the background loop with ExpireInterval 50 ms, and the refusal of index keys with a `$`-prefixed field name (TTL or not, first or inner segment; an accepted one used to make every pass fail). Non-trivial = a TTL collection lost some and kept some documents"
 	var fails []oracleFailure
 	add := func(sig, what string, detail interface{}) {
 		for _, f := range fails {
